@@ -163,17 +163,21 @@ def callback_names(ck, rule):
     for hk in sorted(hooks):
         ck.check(hk in names, rule, "fxpmath/callbacks.py Callback", "hook %s declared by Callback is announced somewhere" % hk,
                  "hook %s is never invoked" % hk)
-    # runner body
+    # runner body: on some path through the loop over self.callbacks the (substituted) call is getattr(<loop variable>, name)(self)
     ok = False
     loop_over = None
+    p = [x for x in run.params if x != "self"][0]
     for n in ast.walk(run.node):
         if isinstance(n, ast.For) and dotted(n.iter) == "self.callbacks" and isinstance(n.target, ast.Name):
             loop_over = n
-            cbv = n.target.id
-            p = [x for x in run.params if x != "self"][0]
-            for c in calls_in(n):
+    if loop_over is not None:
+        cbv = loop_over.target.id
+        from ..common import fpaths
+        for pf in fpaths(prog, run):
+            for ce in pf.calls:
+                c = ce.call
                 if isinstance(c.func, ast.Call) and dotted(c.func.func) == "getattr" and len(c.func.args) >= 2 \
-                        and dotted(c.func.args[0]) == cbv and dotted(c.func.args[1]) == p \
+                        and src(c.func.args[0]) == "$elem(self.callbacks)" and dotted(c.func.args[1]) == p \
                         and len(c.args) >= 1 and dotted(c.args[0]) == "self":
                     ok = True
     ck.check(ok, rule, run, "the runner calls getattr(cb, name)(self) for every registered callback",
